@@ -3,7 +3,7 @@ classdef("Individual",
          fields={"id": "Int", "vector": "List[Real]", "costs": "List[Real]", "costs_signed": "List[Real]",
                  "state": "Int", "population_id": "Int", "algorithm_id": "Int",
                  "parents": "List[Ref[Individual]]", "children": "List[Ref[Individual]]",
-                 "features": "Ref[Features]", "custom": "Ref[Custom]"},
+                 "features": "Ref[Features]", "custom": "Ref[Custom]", "ghost_evals": "Int"},
          class_vars={"counter": "Int"},
          statics={"State": {"EMPTY": 0, "IN_PROGRESS": 1, "EVALUATED": 2, "FAILED": 3}})
 classdef("Custom", rec=True, fields={})
@@ -25,9 +25,10 @@ classdef("Archive", fields={"_dominance": "Ref[Dominance]", "_contents": "List[R
 classdef("Parameter", rec=True, optional=["bounds", "precision", "parameter_type", "initial_value", "tol"],
          fields={"bounds": "List[Real]", "precision": "Real", "tol": "Real", "initial_value": "Real", "name": "Str", "parameter_type": "Str"})
 classdef("Options", rec=True,
-         fields={"max_population_size": "Int", "max_population_number": "Int", "max_processes": "Int"})
+         fields={"max_population_size": "Int", "max_population_number": "Int", "max_processes": "Int", "algorithm": "Str",
+                 "tol": "Real", "bounds": "Opt[List[Real]]", "n_iterations": "Int", "verbose_level": "Int"})
 classdef("Algorithm", fields={"parameters": "List[Ref[Parameter]]", "options": "Ref[Options]", "problem": "Ref[Problem]",
-                              "evaluator": "Ref[Evaluator]"})
+                              "evaluator": "Ref[Evaluator]", "uuid": "Int"})
 classdef("GeneticAlgorithm", bases=["Algorithm"], fields={})
 classdef("SwarmAlgorithm", bases=["GeneticAlgorithm"],
          fields={"dominance": "Ref[ParetoDominance]", "leaders": "Ref[Archive]", "archive": "Ref[Archive]",
@@ -39,11 +40,12 @@ classdef("SMPSO", bases=["SwarmAlgorithm"], fields={})
 classdef("PSOGA", bases=["SwarmAlgorithm"], fields={})
 # ghost_* fields are specification-only state (the objective call log of C05/C06/C19): number of calls of the user's
 # objective, and argument / vector list / returned list of the most recent call
-classdef("Problem", fields={"parameters": "List[Ref[Parameter]]", "individuals": "List[Ref[Individual]]",
+classdef("Cost", rec=True, optional=["criteria"], fields={"name": "Str", "criteria": "Str"})
+classdef("Problem", fields={"costs": "List[Ref[Cost]]", "parameters": "List[Ref[Parameter]]", "individuals": "List[Ref[Individual]]",
                             "failed": "List[Ref[Individual]]", "signs": "List[Int]", "surrogate": "Ref[SurrogateModel]",
                             "data_store": "Ref[DataStore]", "has_predict": "Bool",
                             "ghost_calls": "Int", "ghost_last_arg": "Ref[Individual]", "ghost_last_vec": "List[Real]",
-                            "ghost_last_ret": "List[Real]", "ghost_last_g": "List[Real]", "ghost_nontransient": "Int"})
+                            "ghost_last_ret": "List[Real]", "ghost_last_g": "List[Real]", "ghost_nontransient": "Int", "ghost_ncosts": "Int"})
 classdef("DataStore", fields={})
 classdef("SurrogateModel", fields={"problem": "Ref[Problem]", "x_data": "List[List[Real]]", "y_data": "List[List[Real]]",
                                    "trained": "Bool", "eval_counter": "Int", "predict_counter": "Int", "train_step": "Int",
@@ -51,4 +53,11 @@ classdef("SurrogateModel", fields={"problem": "Ref[Problem]", "x_data": "List[Li
 classdef("Regressor", fields={})
 classdef("SurrogateModelPredict", bases=["SurrogateModel"], fields={})
 classdef("SurrogateModelEval", bases=["SurrogateModel"], fields={})
-classdef("Evaluator", fields={})
+classdef("Evaluator", fields={"algorithm": "Ref[Algorithm]", "individuals": "List[Ref[Individual]]", "job": "Ref[Job]"})
+
+
+classdef("Generator", fields={"parameters": "List[Ref[Parameter]]", "number": "Int"})
+classdef("SweepAlgorithm", bases=["GeneticAlgorithm"], fields={"generator": "Ref[Generator]"})
+classdef("ScipyOpt", bases=["Algorithm"], fields={})
+classdef("NLopt", bases=["Algorithm"], fields={})
+classdef("NloptOpt", fields={})
